@@ -584,6 +584,8 @@ String Socket_::readLine()
 
 int Socket_::read(void* data, int size)
 {
+	if (size <= 0)
+		return 0;
 		int s = 0, size0 = size;
 		do
 		{
